@@ -5,6 +5,7 @@ package main
 import (
 	"fmt"
 	"go/token"
+	"go/types"
 	"strings"
 
 	"golang.org/x/tools/go/ssa"
@@ -136,6 +137,81 @@ func runC03(c *Ctx) {
 		}
 		if n < 3 {
 			c.Undecided("C03-D5: found %d callback/dequeue sites in the retry queue's replacement ack, expected at least 3", n)
+		}
+	}
+
+	c.Rule("C03-D6", "ack ids are unique per emitter: the id counter is read and advanced in ONE critical section of its mutex (fetch-and-increment) and is stored nowhere else — two concurrent emits that read the same id "+
+		"register two handlers under one key: one callback gets the other event's reply, the other only the timeout; and once an emit has registered an ack with a timeout, no later early return of emit can skip the send path "+
+		"silently before the handler exists (a discarded volatile packet with a callback still gets ErrAckTimeout exactly once)", 5)
+	for _, a := range []struct{ short, typ, fn, field, mu string }{
+		{"sio", "Namespace", "Namespace.nextAckID", "ackID", "ackMu"},
+		{"sio", "clientSocket", "clientSocket.nextAckID", "ackID", "acksMu"},
+	} {
+		fn := p.Fn(a.short, a.fn)
+		fv := p.Field(a.short, a.typ, a.field)
+		li := Locks(fn)
+		recv := vname(fn.Params[0])
+		name := "sio." + a.fn
+		incs := findInstrs(fn, func(in ssa.Instruction) bool {
+			st, ok := in.(*ssa.Store)
+			if !ok || !fieldStorePred(fv)(in) {
+				return false
+			}
+			bo, ok := st.Val.(*ssa.BinOp)
+			return ok && bo.Op == token.ADD && Term(bo.Y) == "1" && isFieldLoadOf(bo.X, fv)
+		})
+		c.Ob("C03-D6", name+"/advances", fn.Pos(), len(incs) == 1 && li.HoldsW(incs[0], recv+"."+a.mu), "the id generator must advance the counter by one under "+a.mu+" in the very call that hands the id out")
+		// the returned id is the counter value read in that same critical section
+		for _, ret := range effReturns(fn) {
+			okRet := false
+			if len(ret.Results) == 1 && len(incs) == 1 {
+				vals := []ssa.Value{ret.Results[0]}
+				// a function with a defer returns through a result slot: look at what was stored into it
+				if ld, isLd := ret.Results[0].(*ssa.UnOp); isLd {
+					if al, isAl := ld.X.(*ssa.Alloc); isAl && al.Referrers() != nil {
+						vals = nil
+						for _, r := range *al.Referrers() {
+							if st, isSt := r.(*ssa.Store); isSt && st.Addr == ssa.Value(al) {
+								vals = append(vals, st.Val)
+							}
+						}
+					}
+				}
+				okRet = len(vals) > 0
+				for _, v := range vals {
+					ld, isLd := v.(*ssa.UnOp)
+					if !isLd || !isFieldLoadOf(ld, fv) || !li.HoldsW(ld, recv+"."+a.mu) || !SameRegion(li, ld, incs[0], recv+"."+a.mu) {
+						okRet = false
+					}
+				}
+			}
+			c.Ob("C03-D6", name+"/fetch-and-increment", ret.Pos(), okRet, "the id returned is not the counter value read in the critical section that advances it: two concurrent callers can obtain the same id")
+		}
+		// nobody else stores the counter
+		for _, f := range p.SrcFuncs() {
+			if EnclosingTop(f) == fn {
+				continue
+			}
+			for _, st := range findInstrs(f, fieldStorePred(fv)) {
+				if rawTop(f) != f && EnclosingTop(f) == fn {
+					continue
+				}
+				c.Ob("C03-D6", a.typ+"."+a.field+"/stored-only-by-generator@"+FuncName(f), st.Pos(), false, a.typ+"."+a.field+" is stored in "+FuncName(f)+": ids handed out before that store can be handed out again")
+			}
+		}
+	}
+	{
+		// client emit: the ack handler is registered before any decision to discard the packet
+		em := p.Fn("sio", "clientSocket.emit")
+		reg := callPred(`\(\*sio\.clientSocket\)\.registerAckHandler`)
+		send := callPred(`dyn:s\.sendBuffers|\(\*sio\.clientSocket\)\._sendBuffers|\(\*sio\.clientSocket\)\.sendBuffers.*`)
+		if len(findInstrs(em, reg)) == 0 || len(findInstrs(em, send)) == 0 {
+			c.Undecided("C03-D6: clientSocket.emit: registerAckHandler / sendBuffers call not found")
+		} else {
+			// with an ack function present and no retry queue, every path to a return passes registerAckHandler
+			as := []Assume{{`\(s\.config\.Retries > 0\)`, false}, {`.*\.Kind\(\) == 19\)`, true}, {`\(.* != nil:.*\)|\(.* != nil\)`, true}}
+			skip, trail := PrunedCanReach(em, nil, as, nil, func(in ssa.Instruction) bool { return reg(in) || isPanicOrErr(in) })
+			c.Ob("C03-D6", "sio.clientSocket.emit/ack-registered-before-any-discard", em.Pos(), !skip, "an emit that carries an ack function can return before the ack was registered (for instance a volatile packet discarded early): its callback is never invoked, not even with the timeout: "+trailString(p, trail))
 		}
 	}
 
@@ -440,4 +516,20 @@ func lockDiscipline(c *Ctx, rule string, lockSel func(string) bool, fnSel func(*
 		}
 	}
 	_ = token.NoPos
+}
+
+func isFieldLoadOf(v ssa.Value, fv *types.Var) bool {
+	u, ok := v.(*ssa.UnOp)
+	if !ok || u.Op != token.MUL {
+		return false
+	}
+	fa, ok := u.X.(*ssa.FieldAddr)
+	return ok && fieldVar(fa.X.Type(), fa.Field) == fv
+}
+
+func isPanicOrErr(in ssa.Instruction) bool {
+	if _, ok := in.(*ssa.Panic); ok {
+		return true
+	}
+	return callPred(`\(\*sio\.clientSocket\)\.onError`)(in)
 }
